@@ -32,6 +32,55 @@ def files_for(rnd):
     return out
 
 
+def sparse_family(ck, tier, wd, rnd):
+    """chunks that lie behind 2^31 and behind 2^32 bytes of data: the chunk in front of them declares that many stored bytes and
+    the file has a hole there (it is never requested, so its checksum is never looked at); every request for the chunks
+    behind it - data and stored bytes, uncompressed and zstd, any order - must return their exact bytes: the offsets the
+    library seeks to do not fit 32 bits"""
+    trace = []; owner = []; scripts = {}
+    for comp in (0, 2):
+        for big in (2**31 + 5, 2**32 + 7):
+            small = [corpus.text(rnd, n) for n in (60, 35, 500)]
+            stored = [(c if comp == 0 else ref.zstd_compress(c, 3, None)) for c in small]
+            ents = [{"clen": 0, "ulen": 0, "digest": bytes(16)}, {"clen": big, "ulen": big if comp == 0 else big * 3, "digest": corpus.rand(rnd, 16)}] + \
+                   [{"clen": len(s_), "ulen": len(c), "digest": ref.digest(3, s_)} for c, s_ in zip(small, stored)]
+            hdr = ref.build_header(hash_type=1, chunk_hash_type=3, flags=0, comp_type=comp, entries=ents, data_digest=bytes(32))
+            name = "ra-sparse-c%d-%d" % (comp, big >> 31)
+            p = os.path.join(wd, name + ".zck")
+            with open(p, "wb") as f:
+                f.write(hdr); f.seek(len(hdr) + big); f.write(b"".join(stored))
+            reqs = [(kd, k) for kd in ("d", "c") for k in (2, 3, 4)]
+            seqs = [[r] for r in reqs] + [list(x) for x in itertools.product(reqs, repeat=2)][::(3 if tier == "quick" else 1)] + [[rnd.choice(reqs) for _ in range(12)]]
+            for qi, seq in enumerate(seqs):
+                cid = "%s-q%d" % (name, qi); sink = os.path.join(wd, cid + ".out")
+                L = ["case %s 30" % cid, "ctx 0", "open 0 %s r" % p, "sink 0 %s" % sink, "init_read 0 0"] + \
+                    ["%s 0 %d -1" % ("chunk_data" if kd == "d" else "chunk_comp_data", k) for kd, k in seq] + ["end"]
+                scripts[cid] = ("\n".join(L) + "\n", "%s %s" % (name, seq[:6]), None, sink, small, stored)
+    ids = list(scripts)
+    evs = common.by_case([e for part in common.run_driver_parallel(["".join(scripts[c][0] for c in ids[i::8]) for i in range(8)], "plain", timeout=900) for e in part])
+    for cid in ids:
+        scr, name, _p, sink, small, stored = scripts[cid]
+        ce = evs.get(cid, [])
+        data = open(sink, "rb").read() if os.path.exists(sink) else b""; pos = 0
+        op = [e for e in ce if e["op"] == "init_read"]
+        trace.append({"op": "open", "f": {"valid": True, "total": sum(len(c) for c in small), "unit": True, "cok": [True] * 5, "dataok": True, "detached": False}, "ret": op[0]["ret"] if op else 0}); owner.append(cid)
+        for e in ce:
+            if e["op"] in ("chunk_data", "chunk_comp_data"):
+                k = e["k"]; r = e["ret"]
+                exp = small[k - 2] if e["op"] == "chunk_data" else stored[k - 2]
+                got = data[pos:pos + r] if r > 0 else b""
+                if r > 0: pos += r
+                trace.append({"op": "getchunk", "kind": e["op"], "k": k, "fvalid": True, "want": len(exp), "ret": r, "eq": got == exp}); owner.append(cid)
+            elif e["op"] in ("Crash", "Hang"):
+                trace.append({"op": e["op"]}); owner.append(cid)
+        ck.case(name)
+    validate_segments(ck, "C14", trace, owner, wd, scripts_by={c: (scripts[c][0], scripts[c][1], None) for c in ids})
+    ck.extra["requests_behind_2^31_and_2^32"] = len(ids)
+    for f in os.listdir(wd):
+        if f.startswith("ra-sparse") and f.endswith(".zck"):
+            os.remove(os.path.join(wd, f))
+
+
 def run(tier):
     ck = Check("C14", tier)
     rnd = random.Random(common.seed())
@@ -112,6 +161,7 @@ def run(tier):
         ok, res = common.validate_trace("Trace_Reader", "Trace_Reader.cfg", p)
         if ok:
             raise Broken("negative control: a wrong random-access result was accepted")
+    sparse_family(ck, tier, wd, rnd)
     ck.exhaustive = tier == "thorough"
     # every history of reads, validations, chunk requests and clear_error on one context (MC_Session): the chunk requests judged
     from .. import session
